@@ -409,7 +409,6 @@ pub struct World {
     pub extra_counts: std::collections::BTreeMap<String, u64>,
     pub first_read: Vec<(usize, u32)>,
     pub gen_set: Vec<bool>,
-    pub markers: Vec<String>,
 }
 
 thread_local! {
